@@ -44,3 +44,48 @@ Theorem C03_overread_is_error : forall r n, (0 < n)%nat ->
   br_threshold r < br_pos r + N.of_nat n -> br_err (snd (br_peek r n)) = true.
 Proof. exact overread_bits. Qed.
 Print Assumptions C03_overread_is_error.
+
+(* ---- one record decode, for ALL inputs (any state, tree, previous value): allocation counter, multimap
+   sizes, consumption only, depth; the result size is NOT bounded by the input (refuted: elements that
+   consume no input), the allocation limit is what bounds it ---- *)
+From Stef Require Import Wire WireOk Reader WireFactsBase DecSafetyFactsBase DecSafetyFacts.
+
+Theorem C03_reader_read_alloc_bounded : forall sizes fuel k tef r r' w,
+  reader_read sizes fuel k tef r = RdRecord r' w -> r_alloc (rd_st r') <= record_alloc_limit.
+Proof. exact reader_read_alloc_bounded. Qed.
+Print Assumptions C03_reader_read_alloc_bounded.
+
+Theorem C03_dec_alloc_exact : forall sizes fuel env t prev rs rs' a,
+  dec sizes fuel env t prev rs = Ok (rs', a) ->
+  r_alloc rs' = alloc_after sizes env t prev a (r_alloc rs).
+Proof. exact dec_alloc_exact. Qed.
+Print Assumptions C03_dec_alloc_exact.
+
+Theorem C03_reader_read_multimap_bounded : forall sizes fuel k tef r r' w,
+  reader_read sizes fuel k tef r = RdRecord r' w -> mm_okb w = true.
+Proof. exact reader_read_multimap_bounded. Qed.
+Print Assumptions C03_reader_read_multimap_bounded.
+
+Theorem C03_dec_consumes : forall sizes fuel env t prev rs rs' a,
+  dec sizes fuel env t prev rs = Ok (rs', a) -> consumes rs rs'.
+Proof. exact dec_consumes. Qed.
+Print Assumptions C03_dec_consumes.
+
+Theorem C03_reader_read_alloc_exact : forall sizes fuel k tef r r' w,
+  reader_read sizes fuel k tef r = RdRecord r' w ->
+  r_alloc (rd_st r') = wire_arr_growth sizes [] (rd_tree r) (rd_rec r) w /\
+  wire_arr_growth sizes [] (rd_tree r) (rd_rec r) w <= record_alloc_limit.
+Proof. exact reader_read_alloc_exact. Qed.
+Print Assumptions C03_reader_read_alloc_exact.
+
+Theorem C03_dec_depth_bounded : forall sizes fuel env t prev rs rs' a,
+  dec sizes fuel env t prev rs = Ok (rs', a) -> (height a <= 2 * fuel)%nat.
+Proof. exact dec_depth_bounded. Qed.
+Print Assumptions C03_dec_depth_bounded.
+
+Theorem C03_dec_result_size_refuted : exists rs' a,
+  dec zs_sizes 2 [] zs_tree RNil (zs_rs 10000) = Ok (rs', a) /\
+  rst_input_bits (zs_rs 10000) = 24 /\ etree_size zs_tree = 2 /\
+  wire_size a = 10001 /\ r_alloc rs' = 10000 * elem_size zs_sizes zs_elem.
+Proof. exact dec_result_size_refuted. Qed.
+Print Assumptions C03_dec_result_size_refuted.
